@@ -986,7 +986,9 @@ class Path:
 
 
 class Explorer:
-    def __init__(self, fns, src, summaries, max_visits=4, max_paths=20000, havoc_unknown=False):
+    def __init__(self, fns, src, summaries, max_visits=4, max_paths=20000, havoc_unknown=False, max_seconds=None):
+        import os as _os
+        self.max_seconds = max_seconds or float(_os.environ.get("MIRSMT_EXPLORE_SECONDS", "240"))
         self.fns, self.src, self.summaries = fns, src, summaries
         self.callres = CallResolver(fns, src)
         self.max_visits, self.max_paths, self.havoc_unknown = max_visits, max_paths, havoc_unknown
@@ -996,9 +998,13 @@ class Explorer:
 
     def explore(self, body):
         """body(ctx) -> value; runs it along every feasible path. Returns [Path]."""
+        import time as _time
         stack = [[]]
         paths = []
+        t_start = _time.time()
         while stack:
+            if _time.time() - t_start > self.max_seconds:
+                raise Unsupported("exploration time budget exceeded (%ds, %d paths so far)" % (self.max_seconds, len(paths)))
             prefix = stack.pop()
             ctx = Ctx(self.fns, self.src, self.summaries, prefix, self.max_visits, self.havoc_unknown)
             ctx.solver, ctx.feas_cache, ctx.callres, ctx.stats = self.solver, self.feas_cache, self.callres, self.stats
